@@ -16,7 +16,7 @@ func VerifC18_q_preAllocateExhausts() {
 	size := nondetInt(0, 6)
 	pw.SetPoolSize(size)
 	before := pw.PoolCount()
-	c := &PoolController{IPAM: pw.IPAM(), LockPoolFunc: pw.LockPool}
+	c := &PoolController{PoolLister: pw.PoolLister(), IPAM: pw.IPAM(), LockPoolFunc: pw.LockPool}
 	verifSetRequestEntity(Pool{Name: "p1", Size: size, PreAllocateIP: true})
 	c.preAllocateIP(vReq, vResp, &Pool{Name: "p1", Size: size, PreAllocateIP: true})
 	verifReach("preallocation-answered")
